@@ -103,15 +103,16 @@ dirs == IF fam = "stat" THEN StatDirs(sel.k) ELSE CollapseDirs(files, sel.ka, se
 
 Queries == { [untracked |-> "no", ignored |-> FALSE], [untracked |-> "normal", ignored |-> FALSE], [untracked |-> "all", ignored |-> FALSE],
              [untracked |-> "normal", ignored |-> TRUE], [untracked |-> "all", ignored |-> TRUE] }
-B(a, b, c, d) == [noracy |-> a, showreplacing |-> b, hideignored |-> c, keepdirs |-> d]
+B(a, b, c, d, e) == [noracy |-> a, showreplacing |-> b, hideignored |-> c, keepdirs |-> d, deleted |-> e]
 Emit == done =>
   LET W == WorldOf(files, dirs, fam = "stat") IN
   PrintT(<<"CASE", ToJson([fam |-> fam, files |-> files, world |-> W,
      answers |-> { [q |-> q, report |-> Report(W, q, NoBugs),
                     \* the reports of the named defective designs, for classifying a disagreement
-                    bugs |-> [no_racy_check |-> Report(W, q, B(TRUE, FALSE, FALSE, FALSE)),
-                              replacing_dir_listed |-> Report(W, q, B(FALSE, TRUE, FALSE, FALSE)),
-                              ignored_hidden_in_untracked_dir |-> Report(W, q, B(FALSE, FALSE, TRUE, FALSE)),
-                              ignored_dirs_stay_collapsed |-> Report(W, q, B(FALSE, FALSE, FALSE, TRUE)),
-                              dirwalk_both |-> Report(W, q, B(FALSE, TRUE, TRUE, TRUE))]] : q \in Queries }])>>)
+                    bugs |-> [no_racy_check |-> Report(W, q, B(TRUE, FALSE, FALSE, FALSE, FALSE)),
+                              replacing_dir_listed |-> Report(W, q, B(FALSE, TRUE, FALSE, FALSE, FALSE)),
+                              ignored_hidden_in_untracked_dir |-> Report(W, q, B(FALSE, FALSE, TRUE, FALSE, FALSE)),
+                              ignored_dirs_stay_collapsed |-> Report(W, q, B(FALSE, FALSE, FALSE, TRUE, FALSE)),
+                              deleted_entries_do_not_keep_dir |-> Report(W, q, B(FALSE, FALSE, FALSE, FALSE, TRUE)),
+                              dirwalk_several |-> Report(W, q, B(FALSE, TRUE, TRUE, TRUE, TRUE))]] : q \in Queries }])>>)
 =============================================================================
